@@ -1641,7 +1641,7 @@ def snapshot(obj):
         return ("list", [snapshot(v) for v in obj])
     return ("val", repr(obj))
 
-CONTAINERS = ["list", "np_c", "np_f", "np_int", "series", "frame", "view", "np_small", "frame_mixed"]
+CONTAINERS = ["list", "np_c", "np_f", "np_int", "series", "frame", "view", "np_small", "frame_mixed", "np_f32"]
 
 def to_container(vals, kind, is_matrix=False, integral=False):
     import pandas as pd
@@ -1656,6 +1656,10 @@ def to_container(vals, kind, is_matrix=False, integral=False):
         return np.asfortranarray(a) if is_matrix else a.copy()
     if kind == "np_int":
         return a.astype(np.int64) if integral and a.dtype.kind == "f" and np.all(a == np.round(a)) else a.copy()
+    if kind == "np_f32":
+        # single precision: the generated values (small integers, dyadic fractions) are exactly representable, so the SAME numbers
+        # arrive; sums accumulated in the data's dtype would round differently
+        return a.astype(np.float32) if a.dtype.kind == "f" and np.all(a.astype(np.float32).astype(float) == a) else a.copy()
     if kind == "frame_mixed":
         # a DataFrame whose columns have different dtypes (integral columns as int64 or nullable Int64, 0/1 columns as bool): its
         # .values is an object array
